@@ -182,7 +182,9 @@ def rule_M(ck, lib):
                     if c[0] == "true" and c[2] and c[1][0] == "call" and c[1][1] == EQIC and set(c[1][2]) == {key, name}:
                         ok = True
                 # the element ranges over self.children
-                if ok and not (item[0] == "iter_item" and item[1] == ("field", selfp, "children")):
+                src_ok = item[0] == "iter_item" and (item[1] == ("field", selfp, "children") or
+                                                      (item[1][0] == "call" and item[1][1].endswith("::iter") and item[1][2] == (("field", selfp, "children"),)))
+                if ok and not src_ok:
                     ok = False
                     why = "the matched element does not range over self.children: %s" % show_term(item)
             ck.judge(ok and not bad_calls, "C01-M", "child:found#%d" % n_some,
@@ -207,7 +209,8 @@ def rule_M(ck, lib):
     forbidden = []
     for xn in hir.walk(v):
         c = hir.base_path(hir.callee(xn) or "")
-        if xn.get("k") in ("Call", "MethodCall") and c and c != EQIC and not (xn.get("callee_kind") or "").startswith("Ctor") and "iter" not in c and "IntoIterator" not in c and "Iterator::next" not in c:
+        if xn.get("k") in ("Call", "MethodCall") and c and c != EQIC and not (xn.get("callee_kind") or "").startswith("Ctor") and "iter" not in c and "IntoIterator" not in c and "Iterator::next" not in c \
+                and c not in ("core::option::Option::map", "core::option::Option::copied", "core::option::Option::cloned"):
             forbidden.append(c)
         if xn.get("k") == "Index":
             forbidden.append("index")
